@@ -796,7 +796,13 @@ class Interp:
                 r.zero_iff = ('cond', a.zero_iff)
             regs[i.id] = r
         elif op in ('add', 'sub', 'mul', 'udiv', 'urem', 'sdiv', 'srem', 'and', 'or', 'xor', 'shl', 'lshr', 'ashr'):
-            regs[i.id] = self.binop(st, op, V(0), V(1), i)
+            a = V(0); b = V(1)
+            r = self.binop(st, op, a, b, i)
+            if op == 'xor' and i.d['bits'] == 1 and isinstance(a, BV) and isinstance(b, BV):
+                for x, y in ((a, b), (b, a)):
+                    if y.concrete() == 1 and x.zero_iff and x.zero_iff[0] == 'allzero':
+                        r.zero_iff = ('allzero', x.zero_iff[1], not x.zero_iff[2])
+            regs[i.id] = r
         elif op == 'icmp':
             a = V(0); b = V(1)
             # comparisons of an i1 condition (zext'ed) with 0: propagate the structured condition
@@ -812,6 +818,21 @@ class Interp:
             cb = c.bits[0]
             if cb == 1: regs[i.id] = a
             elif cb == 0: regs[i.id] = b
+            elif isinstance(a, BV) and isinstance(b, BV) and a.w == 1 and a.concrete() is not None and b.concrete() is not None and a.concrete() != b.concrete():
+                # cond ? 1 : 0  /  cond ? 0 : 1 : the condition itself (or its negation), structured information kept
+                if a.concrete() == 1: regs[i.id] = c
+                else:
+                    r = BV([bnot(cb) if not is_top(cb) else cb])
+                    if c.zero_iff and c.zero_iff[0] == 'allzero': r.zero_iff = ('allzero', c.zero_iff[1], not c.zero_iff[2])
+                    regs[i.id] = r
+            elif isinstance(a, BV) and isinstance(b, BV) and a.concrete() is not None and b.concrete() is not None and is_top(cb) \
+                    and c.zero_iff and c.zero_iff[0] == 'allzero' and (a.concrete() == 0) != (b.concrete() == 0):
+                # cond ? K : 0  /  cond ? 0 : K with a structured condition: keep "value == 0 iff ..." for the comparison that follows
+                dd = deps(cb)
+                r = BV([x if x == y else T(dd) for x, y in zip(a.bits, b.bits)])
+                zi = c.zero_iff
+                r.zero_iff = ('cond', zi if b.concrete() == 0 else ('allzero', zi[1], not zi[2]))
+                regs[i.id] = r
             elif is_form(cb):
                 m = self.merge_val(cb, b, a)      # cb=0 -> b, cb=1 -> a
                 if m is None: raise Fork(cb)
